@@ -200,7 +200,7 @@ func sessionCut(c *composition, hist []mocrelay.ClientMsg, cut int, ending, peer
 	regConns, regSubs := 0, 0
 	if c.router != nil {
 		for i := 0; i < 200; i++ {
-			regConns, regSubs = mocrelay.VerifRouterRegistrySize(c.router)
+			regConns, regSubs = registrySize(c.router)
 			if regConns == 0 && regSubs == 0 {
 				break
 			}
@@ -271,6 +271,10 @@ func C13(run *core.Run) {
 			&mocrelay.ClientEventMsg{Event: ev(5, 5)},
 			&mocrelay.ClientCloseMsg{SubscriptionID: "s1"},    // a repeated CLOSE
 			&mocrelay.ClientCloseMsg{SubscriptionID: "never"}, // a CLOSE of an id that was never opened
+			&mocrelay.ClientReqMsg{SubscriptionID: "s3", ReqFilters: []*mocrelay.ReqFilter{{}}},
+			// a CLOSE right behind its REQ (it crosses the handler's answer) and a re-REQ of an open id
+			&mocrelay.ClientReqMsg{SubscriptionID: "s4", ReqFilters: []*mocrelay.ReqFilter{{}}},
+			&mocrelay.ClientCloseMsg{SubscriptionID: "s4"},
 			&mocrelay.ClientReqMsg{SubscriptionID: "s3", ReqFilters: []*mocrelay.ReqFilter{{}}},
 		}
 	}
@@ -490,8 +494,26 @@ func routerStalledSubscriberCut(conc *abs.Conc, round int) map[string]any {
 	if left < 0 {
 		left = 0
 	}
-	rc, rs := mocrelay.VerifRouterRegistrySize(router)
+	rc, rs := registrySize(router)
 	return map[string]any{"op": "session", "comp": "router x" + fmt.Sprint(len(pubs)+1), "cut": 0, "fed": 0, "ending": "cancel", "peer": "stalled",
 		"returned": returned, "return_ms": retIn.Milliseconds(), "goroutines_left": left, "registry_conns": rc, "registry_subs": rs,
 		"gauge_conn_delta": 0, "gauge_req_delta": 0, "shape": "router: stalled subscriber cancelled while others publish"}
+}
+
+// registrySize reads the router's registry through the verif hook. The hook takes the
+// registry's read locks; if a lock is never released (a session that hangs while holding
+// it) the registry counts as not released: -1 entries, which no model behaviour explains.
+func registrySize(r *mocrelay.RouterHandler) (int, int) {
+	type res struct{ c, s int }
+	ch := make(chan res, 1)
+	go func() {
+		c, s := mocrelay.VerifRouterRegistrySize(r)
+		ch <- res{c, s}
+	}()
+	select {
+	case v := <-ch:
+		return v.c, v.s
+	case <-time.After(3 * time.Second):
+		return -1, -1
+	}
 }
